@@ -16,7 +16,7 @@ RULE = ('one real stack (1-2 CAs) and 2-3 reference peers; a generated history o
         'per (SA,DA) pair; J1939-22: 8 RTS/CTS + 4 BAM plus one call beyond each) while the peers open inbound sessions with colliding session '
         'numbers. non-trivial = at least one history step ended in a failure outcome that actually fired; distinct = distinct scenario JSON')
 FAULT_COUNTERS = {'drop (frame lost)': 'fault_drop', 'peer aborts': 'peer_aborts', 'failed outcomes fired (lost frame / abort / silent peer / no acknowledge)': 'failed_outcomes_fired', 'second call on a busy pair': 'refused_busy_pair', 'inbound sessions overlapping outbound ones': 'inbound_overlaps'}
-REQUIRED_PROBES = ['steps', 'failed_outcomes_fired', 'peer_aborts', 'refused_busy_pair', 'final_batches_ok', 'inbound_overlaps', 'stalled_inbound']
+REQUIRED_PROBES = ['steps', 'failed_outcomes_fired', 'peer_aborts', 'refused_busy_pair', 'final_batches_ok', 'inbound_overlaps', 'stalled_inbound', 'bursts_after_abort']
 PEERS = {'P1': 0x41, 'P2': 0x42, 'P3': 0x43}
 
 
@@ -39,6 +39,9 @@ def generate(rng, tier, i):
                  'outcome': rng.choice(['clean', 'clean', 'drop', 'abort', 'silent', 'noack']), 'j': rng.randint(1, 6)}
             if s['peer'] == 'bam':
                 s['outcome'] = rng.choice(['clean', 'clean', 'drop'])
+            if s['outcome'] == 'abort' and rng.random() < 0.5:
+                s['burst'] = True
+                s['j'] = rng.choice([1, 1, s['j']])
             if rng.random() < 0.25:
                 s['busy_second'] = True
                 s['busy_other_pgn'] = rng.random() < 0.5
@@ -67,7 +70,7 @@ def execute(scn, keep_log=False, hook=None):
         peers[name] = RefPeer(sim, bus, name, PEERS[name], fd=fd, seed=scn['seed'] + k, policy={'reply_ms': (0, 3), 'window': None})
     viol = []
     stats = {'steps': 0, 'failed_outcomes_fired': 0, 'peer_aborts': 0, 'refused_busy_pair': 0, 'final_batches_ok': 0, 'inbound_overlaps': 0,
-             'clean_delivered': 0, 'stalled_inbound': 0}
+             'clean_delivered': 0, 'stalled_inbound': 0, 'bursts_after_abort': 0}
     t0 = sim.now
     sim.run_for(0.02)
     fillc = [scn['seed'] & 0xFFF]
@@ -123,6 +126,29 @@ def execute(scn, keep_log=False, hook=None):
                 p.p['ack'] = False
             d = fresh(s['len'])
             aborts0 = sum(1 for x in (p.sent_done if p else []) if not x.get('ok'))
+            burst = []
+            if s.get('burst') and s['outcome'] == 'abort' and p is not None and len(peers) > 1:
+                # the application submits a message to another peer the moment the stack has processed the peer's abort (before the job
+                # thread's next pass) and one more a little later, while the first is in flight: both must arrive intact
+                other = [x for x in peers.values() if x is not p][0]
+
+                def on_abort(port, fr, other=other, s=s, p=p):
+                    i = rc.Id(fr.can_id)
+                    is_abort = (i.pf == rc.PF_FD_TP_CM and len(fr.data) >= 12 and (fr.data[0] & 0xF) == rc.FD_ABORT) if fd else (i.pf == rc.PF_TP_CM and fr.data[0] == rc.ABORT)
+                    if port.name != 'S' or fr.src != p.name or not is_abort or burst:
+                        return
+                    stats['bursts_after_abort'] += 1
+                    for k, delay in enumerate((0, scn['kernel']['lmax_ns'] + 200_000)):
+                        dd = fresh((60 if fd else 7) * 4 + k)
+                        burst.append((other, bytes(dd), []))
+
+                        def go(dd=dd, k=k):
+                            burst[k][2].append(st.cas[s['ca']].send_pgn(0, 0xD2 + k, other.addr, 6, list(dd)))
+                        if delay:
+                            sim.after(delay, go, 'op')
+                        else:
+                            go()
+                bus.after_rx.append(on_abort)
             ok = st.cas[s['ca']].send_pgn(0, pf, ps, 6, list(d))
             if ok is not True:
                 viol.append({'clause': 'refused-while-free', 'rank': 2, 'feat': {'after': scn['steps'][si - 1]['outcome'] if si else 'start'},
@@ -147,6 +173,16 @@ def execute(scn, keep_log=False, hook=None):
                 viol.append({'clause': 'session-not-released', 'rank': 3, 'feat': {'outcome': s['outcome']},
                              'msg': 'step %d (%s): stack or peer still busy 6 s later: %s' % (si, s['outcome'], st.tables())})
                 break
+            bus.after_rx.clear()
+            if burst:
+                for k, (other, dd, oks) in enumerate(burst):
+                    # (J1939-21: the second message meets a busy pair and may be refused)
+                    if oks and oks[0] is True and sum(1 for r in other.received if r['data'] == dd) != 1:
+                        viol.append({'clause': 'transfer-after-abort-lost', 'rank': 2, 'feat': {'k': k},
+                                     'msg': 'step %d: message %d submitted right after the peer\'s abort was accepted but received %d time(s); peer errors %s' % (
+                                         si, k, sum(1 for r in other.received if r['data'] == dd), other.protocol_errors[:1])})
+                    elif oks and oks[0] is not True and (fd or k == 0):
+                        viol.append({'clause': 'refused-while-free', 'rank': 2, 'feat': {'after': 'abort-burst'}, 'msg': 'step %d: message %d right after the abort was refused (%r)' % (si, k, oks[0])})
             if s['outcome'] == 'clean' and not s.get('with_in'):
                 recs = [r for pp in (peers.values() if bam else [p]) for r in pp.received if r['data'] == bytes(d)]
                 if len(recs) != (len(peers) if bam else 1):
@@ -277,7 +313,7 @@ def features(scn, v):
 def shrink(scn):
     yield from gen.drop_each(scn, 'steps', 0)
     for i, s in enumerate(scn['steps']):
-        for key in ('with_in', 'busy_second'):
+        for key in ('with_in', 'busy_second', 'burst'):
             if s.get(key):
                 c = copy.deepcopy(scn)
                 del c['steps'][i][key]
